@@ -34,6 +34,11 @@ def answer (line : String) : String :=
     | some b, some objid, some data =>
       (ObjParser.getobjBytes b objid data).show
     | _, _, _ => "bad-op"
+  | ["model.getobjS", b, objid, h] =>
+    match b.toNat?, objid.toInt?, bytesOfHex h with
+    | some b, some objid, some data =>
+      (ObjParser.getobjS b objid data).show
+    | _, _, _ => "bad-op"
   | ["model.lex", b, h] =>
     match b.toNat?, bytesOfHex h with
     | some b, some data =>
